@@ -1,6 +1,7 @@
 """Per-function verification driver: path enumeration, obligations, discharge (z3, then cvc5)."""
 import ast
 import os
+import sys
 import subprocess
 import tempfile
 import time
@@ -130,12 +131,15 @@ class Verifier(Dyn):
         self.old_state = self.st.snapshot()
         old = self.old_state
         params = dict(binding)
+        self.top_params = params
+        self.step_count = 0
         try:
             try:
                 self.exec_block(node.body)
                 result = VNone
             except ReturnSig as r:
                 result = r.value
+            self.end_of_path_guard()
             self.outcomes["return"] += 1
             self.frame_obligations(old)
             env2 = dict(params)
@@ -145,7 +149,11 @@ class Verifier(Dyn):
             for j, cl in enumerate(c.ensures):
                 self.cover_hits[("ensures", j)] = self.cover_hits.get(("ensures", j), 0) + 1
                 self.prove_clause("ensures/%d" % j, cl, kind="post", spec_env=env2, old=old)
+            for e, cond in c.when_raises.items():
+                # `when_raises`: in a pre-state satisfying the condition the call raises -- so a normal return implies its negation
+                self.prove_clause("returns-only-when-not[%s]" % e, "not old(%s)" % cond, kind="post", spec_env=env2, old=old)
         except PyRaise as pr:
+            self.end_of_path_guard()
             self.outcomes["raise"] += 1
             self.frame_obligations(old)
             exc = pr.exc
@@ -154,7 +162,16 @@ class Verifier(Dyn):
                 if is_exc_subclass(self.reg, self.src, exc.cls, e.rstrip("+")):
                     entry = e
                     break
+            wentry = None
             if entry is None:
+                for e in c.when_raises:
+                    if is_exc_subclass(self.reg, self.src, exc.cls, e.rstrip("+")):
+                        wentry = e
+                        break
+            if wentry is not None:
+                # raised exactly under the stated pre-state condition
+                self.prove_clause("raises-only-when[%s]" % wentry, "old(%s)" % c.when_raises[wentry], kind="post-exc", spec_env=dict(params), old=old)
+            elif entry is None:
                 self.oblige("no-undeclared-exception/%s" % exc.cls, z3.BoolVal(False), kind="exception-freedom",
                             info={"clause": "the function raises only what its contract declares", "exception": exc.cls})
             else:
@@ -165,6 +182,12 @@ class Verifier(Dyn):
                     self.prove_clause("raises[%s]/%d" % (entry, j), cl, kind="post-exc", spec_env=env3, old=old)
         except (BreakSig, ContinueSig):
             raise Unsupported("break/continue outside loop")
+
+    def end_of_path_guard(self):
+        """Vacuity guard (label `vacuity_guard`): the assumptions collected along the path (assumed callee contracts, axioms) must still be
+        satisfiable at the exit, otherwise everything would be proved from a contradiction; such a path is counted as infeasible."""
+        if self.contract.labels.get("vacuity_guard") and not self.feasible(z3.BoolVal(True)):
+            raise PathEnd("infeasible at exit")
 
     def class_defaults(self, ent):
         """A constructor starts from the class-level defaults: fields whose class (or a base) declares `f = None` are None."""
@@ -663,6 +686,8 @@ class Verifier(Dyn):
         obs = [self.obligations[k] for k in self.ob_order]
         for ob in obs:
             self.discharge(ob, timeout_ms)
+            if os.environ.get("PYVC_TRACE"):
+                sys.stderr.write("[trace] %-60s %-10s %-5s %.2fs pc=%d %s\n" % (ob.name[-60:], ob.result, ob.backend, ob.time, len(ob.pc), getattr(ob, 'reason', '')[:60]))
             rep["obligations"].append({"name": ob.name, "kind": ob.kind, "level": ob.level, "result": ob.result, "backend": ob.backend,
                                        "time_s": round(ob.time, 4), "clause": ob.info.get("clause"), "clause_text": ob.info.get("clause_text"), "tags": ob.info.get("tags"), "model": ob.model,
                                        "reason": getattr(ob, "reason", ""), "goal": str(ob.goal)[:300]})
